@@ -3000,13 +3000,10 @@ int64_t ExpressionEvaluator::evaluate_function_call_impl(const ASTNode *node) {
                     strcpy(str_copy, str_value.c_str());
 
                     // 配列内のポインタを更新
+                    // The slot is raw memory (the containers pass a node
+                    // fresh from malloc), so what it held before is not a
+                    // string this call may free.
                     char **arr = reinterpret_cast<char **>(ptr_value);
-
-                    // 既存の文字列があれば解放
-                    if (arr[index] != nullptr) {
-                        free(arr[index]);
-                    }
-
                     arr[index] = str_copy;
 
                     if (interpreter_.is_debug_mode()) {
